@@ -657,6 +657,24 @@ class HyperOptimizer(PathOptimizer):
             yield self._get_and_report_next_future()
 
     def _search(self, inputs, output, size_dict):
+        if (len(inputs) == 1) and not self.multicontraction:
+            # a single tensor: there is nothing to search, and neither the
+            # partition based methods nor the objectives (zero cost) are
+            # defined for an empty contraction -> the tree is just the leaf
+            if self.compressed:
+                tree = ContractionTreeCompressed(inputs, output, size_dict)
+            else:
+                tree = ContractionTree(inputs, output, size_dict)
+            tree.set_default_objective(self.objective)
+            self.best = {
+                "score": 0.0,
+                "tree": tree,
+                "flops": 0,
+                "write": 0,
+                "size": tree.max_size(),
+            }
+            return
+
         # start a timer?
         if self.max_time is not None:
             t0 = time.time()
